@@ -1823,8 +1823,7 @@ class _Rewrite(ast.NodeTransformer):
 _modules = {}
 _summaries = {}  # module name -> {function name: summary}
 _extern = {}  # import name -> replacement module object (stubs for pysam etc.)
-SKIP_INIT = {"mchap", "mchap.assemble", "mchap.calling", "mchap.pedigree", "mchap.io", "mchap.application",
-             "mchap.encoding", "mchap.io.vcf"}
+SKIP_INIT = {"mchap"}  # the top-level package only re-exports (and would pull in everything)
 loaded_sources = {}  # module name -> (file, sha1)
 
 
@@ -1872,6 +1871,10 @@ def load(name, keep_init=False):
     """shadow-load module `name` from the repository's current source"""
     if name in _modules:
         return _modules[name]
+    if "." in name:
+        load(name.rsplit(".", 1)[0])  # parent package first (as Python does)
+        if name in _modules:
+            return _modules[name]
     root = repo_root()
     path = os.path.join(root, *name.split("."))
     if os.path.isdir(path):
@@ -1977,64 +1980,126 @@ def use_summaries(on=True):
 ONE = z3.RealVal(1)
 
 
-def as_frac(t, memo=None):
-    """z3 real term with +,-,*,/,ite -> (num, den) division-free terms."""
-    if memo is None:
-        memo = {}
+def _fprod(D, exclude=None):
+    """product term of a factor dict {id: (term, k)}; exclude: factor dict to divide out (must be contained)"""
+    fs = []
+    for k, (t, e) in D.items():
+        if exclude is not None and k in exclude:
+            e -= exclude[k][1]
+        fs.extend([t] * e)
+    if not fs:
+        return None
+    return z3.Product(fs) if len(fs) > 1 else fs[0]
+
+
+def _flcm(D1, D2):
+    L = dict(D1)
+    for k, (t, e) in D2.items():
+        if k not in L or L[k][1] < e:
+            L[k] = (t, e)
+    return L
+
+
+def _fmul(n, f):
+    if f is None:
+        return n
+    if n.eq(ONE):
+        return f
+    return n * f
+
+
+def _fadd(D1, D2):
+    D = dict(D1)
+    for k, (t, e) in D2.items():
+        D[k] = (t, D[k][1] + e) if k in D else (t, e)
+    return D
+
+
+def _ffactors(t, sign=1):
+    """split a (division-free) term into constant * atomic factors: returns (Fraction c, factor dict)"""
+    if z3.is_rational_value(t):
+        return t.as_fraction(), {}
+    if z3.is_app_of(t, z3.Z3_OP_MUL):
+        c = Fraction(1)
+        D = {}
+        for ch in t.children():
+            c2, D2 = _ffactors(ch)
+            c *= c2
+            D = _fadd(D, D2)
+        return c, D
+    if z3.is_app_of(t, z3.Z3_OP_UMINUS):
+        c, D = _ffactors(t.arg(0))
+        return -c, D
+    return Fraction(1), {t.get_id(): (t, 1)}
+
+
+def as_frac2(t, memo):
+    """z3 real term with +,-,*,/,ite -> (division-free numerator, denominator as a factor dict).
+    Denominators are kept factored so sums share common factors (degree stays low)."""
     k = t.get_id()
     if k in memo:
         return memo[k]
     if z3.is_rational_value(t):
-        fr = t.as_fraction()
-        r = (z3.RealVal(fr.numerator), z3.RealVal(fr.denominator))
+        r = (t, {})
     elif z3.is_app_of(t, z3.Z3_OP_ADD) or z3.is_app_of(t, z3.Z3_OP_SUB):
         sub = z3.is_app_of(t, z3.Z3_OP_SUB)
-        n, d = as_frac(t.arg(0), memo)
-        for c in t.children()[1:]:
-            n2, d2 = as_frac(c, memo)
-            if d2.eq(d):
-                n = n - n2 if sub else n + n2
-            elif d2.eq(ONE):
-                n = n - n2 * d if sub else n + n2 * d
-            elif d.eq(ONE):
-                n, d = (n * d2 - n2 if sub else n * d2 + n2), d2
-            else:
-                n, d = (n * d2 - n2 * d if sub else n * d2 + n2 * d), d * d2
-        r = (n, d)
+        parts = [as_frac2(c, memo) for c in t.children()]
+        L = {}
+        for _, D in parts:
+            L = _flcm(L, D)
+        terms = [_fmul(n, _fprod(L, D)) for n, D in parts]
+        if sub:
+            n = terms[0]
+            for x in terms[1:]:
+                n = n - x
+        else:
+            n = z3.Sum(terms) if len(terms) > 1 else terms[0]
+        r = (n, L)
     elif z3.is_app_of(t, z3.Z3_OP_UMINUS):
-        n, d = as_frac(t.arg(0), memo)
-        r = (-n, d)
+        n, D = as_frac2(t.arg(0), memo)
+        r = (-n, D)
     elif z3.is_app_of(t, z3.Z3_OP_MUL):
-        n, d = ONE, ONE
+        n, D = ONE, {}
         for c in t.children():
-            n2, d2 = as_frac(c, memo)
+            n2, D2 = as_frac2(c, memo)
             n = n2 if n.eq(ONE) else (n if n2.eq(ONE) else n * n2)
-            d = d2 if d.eq(ONE) else (d if d2.eq(ONE) else d * d2)
-        r = (n, d)
+            D = _fadd(D, D2)
+        r = (n, D)
     elif z3.is_app_of(t, z3.Z3_OP_DIV):
-        n1, d1 = as_frac(t.arg(0), memo)
-        n2, d2 = as_frac(t.arg(1), memo)
-        r = (n1 if d2.eq(ONE) else n1 * d2, n2 if d1.eq(ONE) else d1 * n2)
+        n1, D1 = as_frac2(t.arg(0), memo)
+        n2, D2 = as_frac2(t.arg(1), memo)
+        c, F2 = _ffactors(n2)
+        n = _fmul(n1, _fprod(D2))
+        if c != 1:
+            n = n * z3.RealVal(1 / c)
+        r = (n, _fadd(D1, F2))
     elif z3.is_app_of(t, z3.Z3_OP_ITE):
         c = norm_bool(t.arg(0), memo)
-        n1, d1 = as_frac(t.arg(1), memo)
-        n2, d2 = as_frac(t.arg(2), memo)
-        if d1.eq(d2):
-            r = (z3.If(c, n1, n2), d1)
-        else:
-            r = (z3.If(c, n1 * d2, n2 * d1), d1 * d2)
+        n1, D1 = as_frac2(t.arg(1), memo)
+        n2, D2 = as_frac2(t.arg(2), memo)
+        L = _flcm(D1, D2)
+        r = (z3.If(c, _fmul(n1, _fprod(L, D1)), _fmul(n2, _fprod(L, D2))), L)
     elif z3.is_app_of(t, z3.Z3_OP_POWER) and z3.is_rational_value(t.arg(1)) and t.arg(1).as_fraction().denominator == 1 and t.arg(1).as_fraction() >= 0:
-        n, d = as_frac(t.arg(0), memo)
+        n, D = as_frac2(t.arg(0), memo)
         p = int(t.arg(1).as_fraction())
-        r = (z3.Product([n] * p) if p > 1 else (n if p == 1 else ONE), z3.Product([d] * p) if p > 1 and not d.eq(ONE) else (d if p >= 1 else ONE))
+        r = (z3.Product([n] * p) if p > 1 else (n if p == 1 else ONE), {k2: (tt, e * p) for k2, (tt, e) in D.items()} if p >= 1 else {})
     else:
-        r = (t, ONE)
+        r = (t, {})
     memo[k] = r
     return r
 
 
+def as_frac(t, memo=None):
+    """(num, den) division-free terms"""
+    if memo is None:
+        memo = {}
+    n, D = as_frac2(t, memo)
+    d = _fprod(D)
+    return n, (d if d is not None else ONE)
+
+
 def norm_bool(b, memo=None, dens=None):
-    """clear denominators inside a boolean term over reals.  `dens` collects denominators
+    """clear denominators inside a boolean term over reals.  `dens` collects denominator factors
     (the caller asserts them non-zero)."""
     if memo is None:
         memo = {}
@@ -2058,27 +2123,19 @@ def norm_bool(b, memo=None, dens=None):
            z3.Z3_OP_GE: "__ge__", z3.Z3_OP_GT: "__gt__"}
     for op, name in ops.items():
         if z3.is_app_of(b, op) and b.num_args() == 2 and z3.is_real(b.arg(0)):
-            n1, d1 = as_frac(b.arg(0), memo)
-            n2, d2 = as_frac(b.arg(1), memo)
-            for d in (d1, d2):
-                if not z3.is_rational_value(d):
-                    dens.append(d)
-            if name in ("__eq__", "__ne__"):
-                l, r = (n1 if d2.eq(ONE) else n1 * d2), (n2 if d1.eq(ONE) else n2 * d1)
-            else:
-                # multiply by d1^2 d2^2 > 0
-                l = n1
-                r = n2
-                if not d1.eq(ONE):
-                    l = l * d1
-                    r = r * d1 * d1
-                if not d2.eq(ONE):
-                    l = l * d2 * d2
-                    r = r * d2
-                if z3.is_rational_value(d1) and z3.is_rational_value(d2):
-                    l, r = n1 * d2, n2 * d1  # positive constants
-            if name == "__eq__" and z3.is_bool(b.arg(0)):
-                return b
+            n1, D1 = as_frac2(b.arg(0), memo)
+            n2, D2 = as_frac2(b.arg(1), memo)
+            L = _flcm(D1, D2)
+            for k, (t, e) in L.items():
+                dens.append(t)
+            l = _fmul(n1, _fprod(L, D1))
+            r = _fmul(n2, _fprod(L, D2))
+            if name not in ("__eq__", "__ne__"):
+                # both sides were multiplied by prod(L); make the multiplier a square (> 0)
+                odd = {k: (t, 1) for k, (t, e) in L.items() if e % 2 == 1}
+                o = _fprod(odd)
+                if o is not None:
+                    l, r = l * o, r * o
             return getattr(l, name)(r)
     if z3.is_app_of(b, z3.Z3_OP_EQ) and z3.is_bool(b.arg(0)):
         return norm_bool(b.arg(0), memo, dens) == norm_bool(b.arg(1), memo, dens)
